@@ -319,7 +319,7 @@ func ruleEdgeBuckets(c *Ctx, rule string) {
 		if bound < 0 {
 			continue
 		}
-		for b := range l.blocks {
+		for _, b := range l.ordered() {
 			for _, in := range b.Instrs {
 				switch x := in.(type) {
 				case *ssa.Store:
